@@ -12,6 +12,12 @@ COMMON_NOTE = (
 )
 
 CHECKS = {
+    "C16": dict(
+        technique="bounded-exhaustive enumeration of archives (subsets of member kinds) with a two-world differential: the same tree extracted on disk vs zipped, every selector x protocol, on the implementation; audit-event monitor for the real-file-only handlers",
+        text="Every subset of <=3 (quick) / <=4 (thorough) of 18 member kinds (nested, explicit and implicit directories, dot-files, UMN/gophermap metadata, sidecars, UTF-8 and CP437 names, relative/absolute/dangling/cyclic link members) is built as an extracted tree and as a ZIP; "
+             "every member path, directory, link-through path and three missing names are requested through 5 protocol forms on both and must agree after removing the selector prefix and timestamps. Archives with mailbox-, Maildir-, script- and PYG-shaped members (with and without same-named real objects in the working directory) must be served as plain files/directories with no process launch, nothing touched or created outside the root; link members leaving the archive are absent.",
+        design_ref="DESIGN.md 3/C16",
+    ),
     "C15": dict(
         technique="bounded-exhaustive enumeration of (item kind x sidecar subset x sidecar content) with an independent Gopher+ block parser as oracle, on the implementation",
         text="For 8 item kinds (text, HTML, compressed, directory, mailbox folder and message, ZIP member and directory) every subset of the four sidecar files, every sidecar content of <=3 lines over 9 line shapes (including lines that look like block headers, leading/trailing blanks, empty lines, non-ASCII, CRLF) "
